@@ -124,7 +124,8 @@ let () =
               incr prefix_done;
               Printf.fprintf oc "%d | %s ; %s ; %s\n" cls si so (show_list model)
             | _ -> ());
-           let bad = (not agree) || (not v_impl && kn = 0) || (not v_model && kn = 0) in
+           (* inputs in a known-finding class are outside the property's domain: neither a disagreement nor a failed verdict there is reported *)
+           let bad = kn = 0 && ((not agree) || (not v_impl) || (not v_model)) in
            if bad && !reported < max_report then begin
              incr reported;
              Printf.printf "CASE line=%d agree=%b verdict_impl=%b verdict_model=%b known=%d class=%d\n  input: %s\n  impl:  %s\n  model: %s\n"
